@@ -7,7 +7,9 @@ CHECKS = {'C01': {'level': 'exploration',
                  'late column}; oracle = independent in-memory reference model; after every transaction Count and every touched row through two of '
                  'four reader paths, full Range dump when <=200 rows, full dumps at the end (typed and Any readers, point reads). non-trivial = the '
                  'final state is non-empty and the history has >=1 of {row in block>=1, offset reused after delete, >=2 writes to one row+column in '
-                 'one txn, descending offsets in one txn, late column written}; distinct = hash of the full action trace',
+                 'one txn, descending offsets in one txn, late column written}; distinct = hash of the full action trace | parallel part '
+                 '(TestC01Parallel): the writers of 2..4 DIFFERENT blocks commit fresh enum strings, strings, ints and records on their own rows at '
+                 'the same time; at quiescence every row must read back exactly what its owner committed last (schedule-independent oracle)',
          'assumptions': ["values are in the documented domain (strings <= 65535 bytes; SetAny/SetMany values have the column's Go type)",
                          'writes target rows that are live when issued (writes to dead offsets are outside the property)',
                          'histories are bounded: <= 3 blocks (offsets < 49152), ~30 actions, <= 12 steps per transaction'],
@@ -15,7 +17,11 @@ CHECKS = {'C01': {'level': 'exploration',
                     'checks': {'quick': 300, 'thorough': 2500},
                     'shards': {'quick': 1, 'thorough': 16},
                     'timeout': {'quick': 900, 'thorough': 3400},
-                    'env': {'GOMAXPROCS': 1}}]},
+                    'env': {'GOMAXPROCS': 1}},
+                   {'run': '^TestC01Parallel$',
+                    'checks': {'quick': 150, 'thorough': 3000},
+                    'shards': {'quick': 1, 'thorough': 2},
+                    'timeout': {'quick': 900, 'thorough': 3400}}]},
  'C02': {'level': 'exploration',
          'rule': 'model-based stateful histories in which every transaction draws its ending (commit / error after step k), may contain failing '
                  'inserts, deletes and key operations; oracles: (a) reference model after every transaction, (b) metamorphic twin collection that '
@@ -169,8 +175,10 @@ CHECKS = {'C01': {'level': 'exploration',
                  'the final primary state must equal the initial state with every committed transaction part folded in that order, and every emitted '
                  'commit must carry, as PUTS, exactly the successive folds (no deltas). free-parallel part: 2..16 goroutines x 20..200 single-merge '
                  'transactions over all 10 numeric kinds on rows in 1..2 blocks with a concurrent Range reader; final value == initial + sum of all '
-                 'deltas. non-trivial = two tasks merged into the same row and their commits on that block were adjacent in apply order (schedules) '
-                 '/ >=2 workers contended (parallel); distinct = program + schedule',
+                 'deltas; one record column with an IN-PLACE merge function (returns its first argument; the record encoder yields) and 10% '
+                 'transactions that merge and then return an error (their deltas must not count). non-trivial = two tasks merged into the same row '
+                 'and their commits on that block were adjacent in apply order (schedules) / >=2 workers contended (parallel); distinct = program + '
+                 'schedule',
          'assumptions': ["context switches happen only at the verif yield points and body yields (windows inside one buffer's apply loop are reached "
                          'only by the free-parallel part)',
                          'shared rows are never deleted by the generated programs (so the fold is well defined)'],
@@ -183,7 +191,7 @@ CHECKS = {'C01': {'level': 'exploration',
                     'env': {'VERIF_PROP': 'C09', 'VERIF_SCHED_LIMIT': {'quick': 2500, 'thorough': 200000}, 'GOMAXPROCS': 1},
                     'timeout': {'quick': 900, 'thorough': 3400}},
                    {'run': '^TestC09Parallel$',
-                    'checks': {'quick': 60, 'thorough': 1500},
+                    'checks': {'quick': 120, 'thorough': 2000},
                     'shards': {'quick': 1, 'thorough': 2},
                     'timeout': {'quick': 900, 'thorough': 3400}}]},
  'C10': {'level': 'exploration',
